@@ -23,14 +23,22 @@ bytes reachable through the requested path (also at every crash point). Families
 (symlinked parent directories, chains <= 4, dangling chains, `..`, cycles = oracle only), `gen_edge`.
 
 Parallel writer: (1) real thread pool: the observed schedule is checked to be a word of the model's trace language
-(`asave.parvalid`) and replayed (model kind `writer`); (2) family `det`: `ThreadPoolExecutor`/`as_completed` are
-replaced inside `onnx_ir.external_data` by a deterministic, seeded executor (real worker threads, one task at a
-time, FIFO window of max_workers started tasks, started tasks run on after a failure): the schedule is a function
-of the seed, so every effect index is a fault point in parallel mode too — exception, BaseException, process exit,
-fault sequences — and the whole marked writer block (failures inside it, run-on effects, closing of the handles) is
-replayed by the model (`saveMarked`, kind `marked`). Concurrent shard drivers under the same executor: model
-`saveShardedAll` (kind `shardedAll`; one temporary directory at a time, shard saves atomic w.r.t. each other).
-Oracle-only: concurrent shard drivers / parallel writer under the real pool when a fault is injected (post-state
+(`asave.parvalid`) and replayed (model kind `writer`); (2) family `det`: `ThreadPoolExecutor`/`as_completed` and
+`threading.Lock/Condition` are replaced inside `onnx_ir.external_data` by a deterministic scheduler (`Sched`: real
+worker threads, exactly one runs at a time and yields before EVERY effect and wherever it would block; round robin or
+seeded choice of which thread performs its next step; FIFO task queue, started tasks run on after a failure): the
+interleaving is effect by effect and a function of the seed, so every effect index is a fault point in parallel mode
+too — exception, BaseException, process exit, fault sequences — and the whole marked writer block (failures inside
+it, run-on effects of the other workers, closing of the handles) is replayed by the model effect by effect
+(`saveMarked`, kind `marked`). Concurrent shard drivers under the same scheduler: every effect is attributed to its
+shard, the model `saveShardedConc` (`asave.conc`: one process per shard, own temporary directory, interleaved at the
+granularity of effects) follows the schedule the run followed; trace, raised, directory, leftovers per shard and the
+state at every crash point are compared; under the sequential schedule the concurrent model is compared with
+`saveShardedAll`. A scheduler that finds every thread blocked (or a thread that never comes back) is a
+`nontermination:det-scheduler:*` failure; a case that exceeds its time guard a `nontermination:case:*` failure.
+fd fast paths: a kernel-level fault stream (`fsize`: RLIMIT_FSIZE cuts a write short and fails it inside numpy's
+tofile / copy_file_range / the buffered flush), oracle only.
+Oracle-only: parallel writer / concurrent shard drivers under the REAL pool when a fault is injected (post-state
 compared for single faults), fd fast paths, a directory as destination, tensors that fail by themselves, os.path
 calls as fault points, cyclic links.
 
@@ -79,6 +87,9 @@ THEOREMS = [
     "IrVerif.AtomicSave.C08_crash_schedule",
     "IrVerif.AtomicSave.C08_exception_schedule",
     "IrVerif.AtomicSave.C08_sharded_crash",
+    "IrVerif.AtomicSave.C08_sharded_concurrent_crash",
+    "IrVerif.AtomicSave.C08_sharded_concurrent_crash_serial",
+    "IrVerif.AtomicSave.C08_sharded_concurrent_exception",
 ]
 ASSUMPTIONS = [
     "os.replace is atomic; tempfile.mkdtemp returns a directory that did not exist (built into the model's Path type; "
@@ -91,7 +102,11 @@ ASSUMPTIONS = [
     "realpath and the mkdtemp/replace arguments on every link case); link theorems assume the destination can be resolved (no cycle: "
     "hyp_resolvable) and ends in a proper file name (hyp_properBase); shares published in the evidence",
     "parallel theorems quantify over every marked sequence of temporary-file effects; the tie to the real writer is per observed "
-    "schedule (trace language `parValid`) and, under the deterministic executor, per task-granular schedule",
+    "schedule (trace language `parValid`) and, under the deterministic scheduler, per effect-granular schedule (round robin / seeded)",
+    "concurrent shard drivers: a driver's temporary directory is private to it (mkdtemp contract: a fresh name per call, checked per "
+    "call; the shim flags every effect that addresses a path other than the caller's own temporary path or destination); the inode "
+    "number of a temporary file is a driver-local name, os.replace publishes bytes and mode under the destination name; hypotheses of "
+    "C08_sharded_concurrent_exception (every driver finished, no clean-up call failed) are evaluated per run (hyp_conc_*)",
 ]
 
 CRASH_RC = 17
@@ -152,16 +167,22 @@ class Shim:
         self.dest_seen: list = []  # destination paths the code derived (from the mkdtemp arguments)
         self.tmp_parent_seen: list = []  # real directories the temporary directories were created in
         self.shard_order: list = []  # sharded saves: shard destinations in the order their saves started
+        self.who: list = []  # concurrent shard drivers: the shard (job index) that performed each effect
+        self.shards: dict = {}  # job index -> {"base", "dir", "dest", "name", "tmpdir"}
         import threading
 
         self.lock = threading.Lock()
 
-    def point(self, ev, partial=None, payload=None):
+    def point(self, ev, partial=None, payload=None, who=None):
+        sc = _SCHED[0]
+        if sc is not None:
+            sc.gate()  # deterministic scheduler: a worker thread waits here for its turn (effect-level interleaving)
         with self.lock:
             idx = self.n
             self.n += 1
             failed = idx in self.faults
             self.events.append(list(ev) + [failed])
+            self.who.append(who)
             if payload is not None:
                 self.payload[idx] = payload
         if failed:
@@ -180,15 +201,15 @@ class CountingFile:
     """File object handed to the writer: every seek/write/close is an effect. No fileno(): every
     byte goes through write() (the kernel-copy and numpy fast paths are not taken)."""
 
-    def __init__(self, shim: Shim, f, wid=None):
-        self._s, self._f, self._closed, self._wid = shim, f, False, wid
+    def __init__(self, shim: Shim, f, wid=None, who=None):
+        self._s, self._f, self._closed, self._wid, self._who = shim, f, False, wid, who
 
     def _ev(self, name):
         """Events of a worker handle of the parallel writer carry the handle number."""
         return [name] if self._wid is None else [name + "w", self._wid]
 
     def seek(self, off, whence=0):
-        self._s.point(self._ev("seek") + [off])
+        self._s.point(self._ev("seek") + [off], who=self._who)
         return self._f.seek(off, whence)
 
     def write(self, b):
@@ -198,11 +219,11 @@ class CountingFile:
             self._f.write(b[:p])
             self._f.flush()
 
-        self._s.point(self._ev("write") + [len(b)], part, payload=b)
+        self._s.point(self._ev("write") + [len(b)], part, payload=b, who=self._who)
         return self._f.write(b)
 
     def truncate(self, n=None):
-        self._s.point(["truncate", n])
+        self._s.point(["truncate", n], who=self._who)
         return self._f.truncate(n)
 
     def tell(self):
@@ -219,7 +240,7 @@ class CountingFile:
         def part(_p):
             self._f.close()
 
-        self._s.point(self._ev("close"), part)
+        self._s.point(self._ev("close"), part, who=self._who)
         self._f.close()
 
     def __enter__(self):
@@ -332,6 +353,68 @@ def install(shim: Shim):
 
         return f
 
+    if shim.expect.get("conc"):
+        # concurrent shard drivers: every effect is attributed to the shard whose temporary directory (or mkdtemp
+        # prefix) it addresses; an effect on any other path gets a `!` name and no shard
+        def k_of(p):
+            p = os.fspath(p)
+            for k, sh in shim.shards.items():
+                td = sh.get("tmpdir")
+                if td and (p == td or os.path.dirname(p) == td):
+                    return k
+            return None
+
+        def tfile(k):
+            return os.path.join(shim.shards[k]["tmpdir"], shim.shards[k]["base"])
+
+        def same(a, b):
+            return os.path.normpath(a) == os.path.normpath(b) or os.path.realpath(a) == os.path.realpath(b)
+
+        def mkdtemp(suffix=None, prefix=None, dir=None):  # noqa: F811
+            k = next((k for k, sh in shim.shards.items() if prefix == "." + sh["base"] + "."), None)
+            ok = k is not None and dir is not None and suffix is None and shim.shards[k].get("tmpdir") is None and os.path.realpath(dir) == os.path.realpath(shim.shards[k]["dir"])
+            if dir is not None and prefix:
+                shim.dest_seen.append(os.path.normpath(os.path.join(dir, prefix[1:-1])))
+                shim.tmp_parent_seen.append(os.path.realpath(dir))
+            shim.point(["mkdtemp"] if ok else ["mkdtemp!", str(prefix), str(dir)], who=k)
+            before = set(os.listdir(dir))
+            r = tempfile.mkdtemp(suffix=suffix, prefix=prefix, dir=dir)
+            assert os.path.basename(r) not in before
+            if k is not None:
+                shim.shards[k]["tmpdir"] = r
+                shim.shard_order.append(shim.shards[k]["name"])
+            shim.tmpdir = r
+            return r
+
+        def replace(a, b):  # noqa: F811
+            k = k_of(a)
+            ok = k is not None and os.fspath(a) == tfile(k) and same(os.fspath(b), shim.shards[k]["dest"])
+            shim.point(["replace"] if ok else ["replace!", os.path.basename(os.fspath(a)), os.path.basename(os.fspath(b))], who=k)
+            return os.replace(a, b)
+
+        def remove(a):  # noqa: F811
+            k = k_of(a)
+            gone = (lambda _p: _quiet(os.remove, a)) if shim.mode == "fnf" else None
+            shim.point(["remove"] if (k is not None and os.fspath(a) == tfile(k)) else ["remove!", os.path.basename(os.fspath(a))], gone, who=k)
+            return os.remove(a)
+
+        def rmdir(a):  # noqa: F811
+            k = k_of(a)
+            gone = (lambda _p: _quiet(os.rmdir, a)) if shim.mode == "fnf" else None
+            shim.point(["rmdir"] if (k is not None and os.fspath(a) == shim.shards[k]["tmpdir"]) else ["rmdir!", os.path.basename(os.fspath(a))], gone, who=k)
+            return os.rmdir(a)
+
+        def copymode(a, b, **kw):  # noqa: F811
+            k = k_of(b)
+            shim.point(["copymode"], who=k)
+            return shutil.copymode(a, b, **kw)
+
+        def sopen(path, mode="r", *a, **kw):  # noqa: F811
+            k = k_of(path)
+            ok = k is not None and os.fspath(path) == tfile(k) and mode == "wb"
+            shim.point(["open"] if ok else ["open!", os.path.basename(os.fspath(path)), mode], who=k)
+            return CountingFile(shim, open(path, mode, *a, **kw), who=k)
+
     os_over = {n: other(os, n) for n in ("chmod", "rename", "renames", "unlink", "link", "symlink", "truncate", "chown", "utime")}
     os_over.update(replace=replace, remove=remove, rmdir=rmdir)
     sh_over = {n: other(shutil, n) for n in ("copyfile", "copy", "copy2", "copystat", "move", "rmtree")}
@@ -341,14 +424,18 @@ def install(shim: Shim):
         path_over = {n: other(os.path, n) for n in ("islink", "realpath", "exists", "samefile")}
         os_over["path"] = _Proxy(os.path, **path_over)
     _SAVED.clear()
-    for n in ("os", "tempfile", "shutil", "open", "concurrent"):
+    for n in ("os", "tempfile", "shutil", "open", "concurrent", "threading"):
         _SAVED[n] = ed.__dict__.get(n, _MISSING)
     if shim.expect.get("det") is not None:
         import concurrent.futures as cf
+        import threading
 
         _DET["seed"] = shim.expect["det"]
-        DetExecutor.seq[0] = 0
+        DetExecutor.clock[0] = 0
+        _SCHED[0] = Sched(shim.expect["det"], shim.expect.get("det_policy") or "rand")
         ed.concurrent = _Proxy(ed.concurrent, futures=_Proxy(cf, ThreadPoolExecutor=DetExecutor, as_completed=det_as_completed))
+        # locks / conditions of the real code (tensor write locks, call-back lock, _ByteBudget): waiting is a gate
+        ed.threading = _Proxy(threading, Lock=DetLock, Condition=DetCondition)
     ed.os = _Proxy(os, **os_over)
     ed.tempfile = _Proxy(tempfile, mkdtemp=mkdtemp)
     ed.shutil = _Proxy(shutil, **sh_over)
@@ -359,31 +446,249 @@ def install(shim: Shim):
 # --------------------------------------------------------------------------- deterministic executor
 
 
+class DetHang(BaseException):
+    """The deterministic scheduler cannot go on: every managed thread is blocked (deadlock) or the thread that was
+    given the turn did not come back within the guard. Reported as a `nontermination:*` failure, never a hang."""
+
+
+class _Abandon(BaseException):
+    """Raised inside a parked managed thread when its scheduler has been abandoned (end of the run)."""
+
+
+class Sched:
+    """Cooperative scheduler over real threads (family `det`): exactly one thread runs at any time — the root thread
+    (the one that called the real code) or one managed worker thread. A managed thread gives up the turn at every
+    *gate*: before each effect (`Shim.point`), when it is idle (waiting for a task), when it has to wait for a lock, a
+    condition or a future. The root thread is the controller: whenever it has to wait it picks — round robin or
+    seeded choice — which eligible thread performs its next step. So the effects of concurrently running tasks are
+    interleaved effect by effect, the interleaving is a function of the seed, and every effect index is a fault
+    point whose run can be compared with the model step by step."""
+
+    GUARD_S = 120.0
+
+    def __init__(self, seed, policy="rand"):
+        import random
+        import threading
+
+        self.th = threading
+        self.cv = threading.Condition()
+        self.rng = random.Random(f"sched/{seed}")
+        self.policy = policy
+        self.parked: dict = {}  # tid -> ready predicate
+        self.tid_of: dict = {}  # thread ident -> tid
+        self.ntid = 0
+        self.grant = None
+        self.active = None
+        self.last = 0
+        self.dead = False
+        self.root = threading.get_ident()
+        self.picks = 0
+
+    def is_root(self) -> bool:
+        return self.th.get_ident() == self.root
+
+    def register(self) -> int:
+        """Called by the creator (the running thread) for a thread it is about to start: tids follow creation order."""
+        self.ntid += 1
+        return self.ntid
+
+    def adopt(self, tid: int) -> None:
+        self.tid_of[self.th.get_ident()] = tid
+
+    def park(self, ready=None) -> None:
+        """Managed thread: give up the turn until the controller grants it again (only when ready() holds)."""
+        if self.dead:
+            raise _Abandon()
+        tid = self.tid_of[self.th.get_ident()]
+        with self.cv:
+            self.parked[tid] = ready
+            if self.active == tid:
+                self.active = None
+            self.cv.notify_all()
+            t0 = time.time()
+            while self.grant != tid:
+                if self.dead:
+                    self.parked.pop(tid, None)
+                    raise _Abandon()
+                self.cv.wait(1.0)
+                if time.time() - t0 > 20 * self.GUARD_S:
+                    self.parked.pop(tid, None)
+                    raise _Abandon()
+            self.grant = None
+            self.parked.pop(tid, None)
+
+    def leave(self) -> None:
+        """Managed thread ends."""
+        tid = self.tid_of.get(self.th.get_ident())
+        with self.cv:
+            self.parked.pop(tid, None)
+            if self.active == tid:
+                self.active = None
+            self.cv.notify_all()
+
+    def gate(self) -> None:
+        """Before an effect: managed threads wait for their turn; the root thread runs only while nobody else does."""
+        if not self.is_root() and self.th.get_ident() in self.tid_of:
+            self.park(None)
+
+    def wait(self, until) -> None:
+        """Block the calling thread until `until()` holds, letting the other threads run meanwhile."""
+        if until():
+            return
+        if not self.is_root():
+            self.park(until)
+            return
+        self.drive(until)
+
+    def drive(self, until) -> None:
+        while True:
+            with self.cv:
+                t0 = time.time()
+                while self.active is not None:  # the thread that has the turn is still running
+                    self.cv.wait(0.5)
+                    if time.time() - t0 > self.GUARD_S:
+                        self.dead = True
+                        self.cv.notify_all()
+                        raise DetHang("the thread that was given the turn did not reach its next gate")
+                cands = [t for t in sorted(self.parked) if self.parked[t] is None or self.parked[t]()]
+                me = until()
+                if not cands and not me:
+                    self.dead = True
+                    self.cv.notify_all()
+                    raise DetHang("deadlock: no thread can make a step")
+                self.picks += 1
+                if self.policy == "rr":
+                    order = ([0] if me else []) + cands
+                    nxt = [t for t in order if t > self.last]
+                    pick = nxt[0] if nxt else order[0]
+                else:
+                    if me and (not cands or self.rng.random() < 0.5):
+                        pick = 0
+                    else:
+                        pick = cands[self.rng.randrange(len(cands))]
+                self.last = pick
+                if pick == 0:
+                    return
+                self.grant = pick
+                self.active = pick
+                self.cv.notify_all()
+
+    def abandon(self) -> None:
+        with self.cv:
+            self.dead = True
+            self.cv.notify_all()
+
+
+_SCHED: list = [None]
+
+
+class DetLock:
+    """threading.Lock inside onnx_ir.external_data under the deterministic scheduler: waiting is a gate."""
+
+    def __init__(self):
+        import threading
+
+        self._l = threading.Lock()
+
+    def acquire(self, blocking=True, timeout=-1):
+        if self._l.acquire(False):
+            return True
+        if not blocking:
+            return False
+        _SCHED[0].wait(lambda: not self._l.locked())
+        if not self._l.acquire(False):
+            raise DetHang("a lock that was free is taken although no other thread ran")
+        return True
+
+    def release(self):
+        self._l.release()
+
+    def locked(self):
+        return self._l.locked()
+
+    def __enter__(self):
+        self.acquire()
+        return True
+
+    def __exit__(self, *_a):
+        self.release()
+        return False
+
+
+class DetCondition:
+    """threading.Condition for _ByteBudget: wait / wait_for are gates whose readiness the controller evaluates."""
+
+    def __init__(self, lock=None):
+        self._l = lock if lock is not None else DetLock()
+        self._gen = 0
+
+    def acquire(self, *a, **kw):
+        return self._l.acquire(*a, **kw)
+
+    def release(self):
+        self._l.release()
+
+    def __enter__(self):
+        self._l.acquire()
+        return True
+
+    def __exit__(self, *_a):
+        self._l.release()
+        return False
+
+    def wait_for(self, predicate, timeout=None):
+        while not predicate():
+            self._l.release()
+            try:
+                _SCHED[0].wait(lambda: bool(predicate()) and not self._l.locked())
+            finally:
+                self._l.acquire()
+        return True
+
+    def wait(self, timeout=None):
+        g = self._gen
+        self._l.release()
+        try:
+            _SCHED[0].wait(lambda: self._gen != g and not self._l.locked())
+        finally:
+            self._l.acquire()
+        return True
+
+    def notify(self, n=1):
+        self._gen += 1
+
+    def notify_all(self):
+        self._gen += 1
+
+
 class _DetFuture:
     def __init__(self, ex, fn, a, kw):
         self.ex, self.fn, self.a, self.kw = ex, fn, a, kw
-        self.state = "pending"  # pending | done | cancelled
+        self.state = "pending"  # pending | running | done | cancelled
         self.value, self.exc = None, None
+        self.order = None  # completion order
 
     def done(self):
-        return self.state != "pending"
+        return self.state in ("done", "cancelled")
 
     def cancelled(self):
         return self.state == "cancelled"
+
+    def running(self):
+        return self.state == "running"
 
     def cancel(self):
         if self.state == "pending" and self in self.ex.queue:
             self.ex.queue.remove(self)
             self.state = "cancelled"
+            self.order = self.ex.tick()
             return True
-        return False
+        return self.state == "cancelled"
 
     def result(self, timeout=None):
         import concurrent.futures as cf
 
-        while self.state == "pending":
-            if not self.ex.step():
-                raise RuntimeError("deterministic executor: a pending future can never complete")
+        _SCHED[0].wait(self.done)
         if self.state == "cancelled":
             raise cf.CancelledError()
         if self.exc is not None:
@@ -391,95 +696,100 @@ class _DetFuture:
         return self.value
 
     def exception(self, timeout=None):
-        try:
-            self.result()
-        except BaseException as e:  # noqa: BLE001
-            return e
-        return None
+        import concurrent.futures as cf
+
+        _SCHED[0].wait(self.done)
+        if self.state == "cancelled":
+            raise cf.CancelledError()
+        return self.exc
 
 
 class DetExecutor:
-    """Stand-in for ThreadPoolExecutor inside onnx_ir.external_data (family `det`): real worker threads (so that
-    threading.local gives one handle per worker), but exactly one task runs at a time and the order is drawn from a
-    seeded PRNG. FIFO window as in the real pool: at most max_workers tasks are started and not finished, a new task
-    is started only from the front of the queue; the task that runs next is any started one. After a task failed the
-    tasks that were already started still run (shutdown(wait=True) waits for them); `linger` further queued tasks may
-    start before the caller reacts. Task granularity: the effects of one task are not interleaved with another's."""
+    """Stand-in for ThreadPoolExecutor inside onnx_ir.external_data (family `det`): real worker threads (threading.local
+    gives one handle per worker), scheduled by `Sched`: one thread runs at a time and yields at every effect, so the
+    tasks' effects are interleaved effect by effect in an order that is a function of the seed. FIFO queue as in the real
+    pool: an idle worker takes the task at the front; at most max_workers workers; a task that has started runs to its end
+    also after another task failed (shutdown(wait=True) waits for it); shutdown(cancel_futures=True) cancels what is still
+    queued — whether a queued task starts before the caller reacts to a failure is the scheduler's (seeded) choice."""
 
-    seq = [0]
+    clock = [0]
 
     def __init__(self, max_workers=None, **_kw):
-        import random
-        import threading
-
-        DetExecutor.seq[0] += 1
         self.W = max(1, max_workers or 1)
-        self.rng = random.Random(f"{_DET['seed']}/{DetExecutor.seq[0]}")
         self.queue: list = []
-        self.window: list = []  # (future, worker id)
-        self.threads: dict = {}
-        self.failed = False
-        self.threading = threading
+        self.threads: list = []
         self.closed = False
+        self.live = 0
+
+    def tick(self):
+        DetExecutor.clock[0] += 1
+        return DetExecutor.clock[0]
 
     def submit(self, fn, *a, **kw):
+        if self.closed:
+            raise RuntimeError("cannot schedule new futures after shutdown")
         f = _DetFuture(self, fn, a, kw)
         self.queue.append(f)
+        if len(self.threads) < self.W:
+            self._spawn()
         return f
 
-    def _refill(self):
-        while len(self.window) < self.W and self.queue:
-            f = self.queue.pop(0)
-            used = {w for _, w in self.window}
-            wid = min(w for w in range(self.W) if w not in used)
-            self.window.append((f, wid))
+    def _spawn(self):
+        import threading
 
-    def _worker(self, wid):
-        inbox, outbox = self.threads[wid][1], self.threads[wid][2]
-        while True:
-            f = inbox.get()
-            if f is None:
-                return
-            try:
-                f.value = f.fn(*f.a, **f.kw)
-            except BaseException as e:  # noqa: BLE001  (the real pool stores BaseExceptions in the future as well)
-                f.exc = e
-            f.state = "done"
-            outbox.put(True)
+        sched = _SCHED[0]
+        tid = sched.register()
+        started = threading.Event()
+        t = threading.Thread(target=self._worker, args=(sched, tid, started), daemon=True)
+        self.threads.append(t)
+        self.live += 1
+        with sched.cv:
+            sched.parked[tid] = lambda: bool(self.queue) or self.closed  # parked from birth: nothing races
+        t.start()
+        started.wait(30)
 
-    def step(self) -> bool:
-        """Run one started task to completion. False: nothing left to run."""
-        import queue
-
-        self._refill()
-        if not self.window:
-            return False
-        f, wid = self.window.pop(self.rng.randrange(len(self.window)))
-        if wid not in self.threads:
-            inbox, outbox = queue.Queue(), queue.Queue()
-            t = self.threading.Thread(target=self._worker, args=(wid,), daemon=True)
-            self.threads[wid] = (t, inbox, outbox)
-            t.start()
-        self.threads[wid][1].put(f)
-        self.threads[wid][2].get()
-        if f.exc is not None:
-            self.failed = True
-        return True
+    def _worker(self, sched, tid, started):
+        sched.adopt(tid)
+        started.set()
+        try:
+            # wait for the first turn (the creator has registered this thread as parked already)
+            with sched.cv:
+                while sched.grant != tid:
+                    if sched.dead:
+                        return
+                    sched.cv.wait(1.0)
+                sched.grant = None
+                sched.parked.pop(tid, None)
+            while True:
+                if self.queue:
+                    f = self.queue.pop(0)
+                    f.state = "running"
+                    try:
+                        f.value = f.fn(*f.a, **f.kw)
+                    except _Abandon:
+                        return
+                    except BaseException as e:  # noqa: BLE001  (the real pool stores BaseExceptions in the future as well)
+                        f.exc = e
+                    f.order = self.tick()
+                    f.state = "done"
+                elif self.closed:
+                    return
+                sched.park(lambda: bool(self.queue) or self.closed)
+        except _Abandon:
+            return
+        finally:
+            self.live -= 1
+            sched.leave()
 
     def shutdown(self, wait=True, cancel_futures=False):
-        if self.closed:
-            return
         if cancel_futures:
-            for f in self.queue:
+            for f in list(self.queue):
                 f.state = "cancelled"
+                f.order = self.tick()
             self.queue = []
-        while self.step():  # started tasks run on; without cancel_futures everything queued runs as well
-            pass
         self.closed = True
-        for t, inbox, _ in self.threads.values():
-            inbox.put(None)
-        for t, _, _ in self.threads.values():
-            t.join()
+        if wait:
+            _SCHED[0].wait(lambda: self.live == 0)
 
     def __enter__(self):
         return self
@@ -490,22 +800,13 @@ class DetExecutor:
 
 
 def det_as_completed(fs, timeout=None):
-    """as_completed for DetExecutor futures: completion order; after a failure up to `linger` more tasks run
-    before the failed future is handed to the caller."""
+    """as_completed for DetExecutor futures: completion order."""
     fs = list(fs)
     yielded: set = set()
     while len(yielded) < len(fs):
-        ready = [f for f in fs if f.done() and id(f) not in yielded]
-        if not ready:
-            ex = next(f.ex for f in fs if not f.done())
-            if not ex.step():
-                raise RuntimeError("deterministic executor: nothing to run")
-            ready = [f for f in fs if f.done() and id(f) not in yielded]
-            if any(f.exc is not None for f in ready):
-                for _ in range(ex.rng.choice([0, 0, 1, 2])):
-                    ex.step()
-                ready = [f for f in fs if f.done() and id(f) not in yielded]
-        for f in ready:
+        _SCHED[0].wait(lambda: any(f.done() and id(f) not in yielded for f in fs))
+        ready = sorted((f for f in fs if f.done() and id(f) not in yielded), key=lambda f: f.order or 0)
+        for f in ready[:1]:
             yielded.add(id(f))
             yield f
 
@@ -518,6 +819,10 @@ _SAVED: dict = {}
 
 def uninstall():
     from onnx_ir import external_data as ed
+
+    if _SCHED[0] is not None:
+        _SCHED[0].abandon()
+        _SCHED[0] = None
 
     for n, v in list(_SAVED.items()):
         if v is _MISSING:
@@ -836,7 +1141,7 @@ def _invoke(case: dict, root: str, objs) -> None:
     import onnx_ir as ir
     from onnx_ir import external_data as ed
 
-    cb = (lambda t, info: _SHIM[0].point(["cb", info.shard_index if case["api"] == "sharded" else info.index])) if case["cb"] else None
+    cb = (lambda t, info: _SHIM[0].point(["cb", info.shard_index if case["api"] == "sharded" else info.index], who=_SHIM[0].expect.get("tensor_shard", {}).get(t.name))) if case["cb"] else None
     kw = {}
     if case.get("workers"):
         kw["max_workers"] = case["workers"]
@@ -869,8 +1174,10 @@ def _invoke(case: dict, root: str, objs) -> None:
     ir.save(m, os.path.join(root, "m.onnx"), external_data=case["dest"], size_threshold_bytes=case["threshold"], callback=cb, **kw)
 
 
-def run_real(case: dict, fault=None, mode="exn") -> dict:
-    """Run the real save once (optionally with an injected fault). mode 'crash' forks."""
+def run_real(case: dict, fault=None, mode="exn", fsize=None) -> dict:
+    """Run the real save once (optionally with an injected fault). mode 'crash' forks. `fsize`: the kernel refuses to
+    let any file grow beyond that many bytes (RLIMIT_FSIZE: a real short write followed by EFBIG inside whatever
+    performs the write — numpy's tofile on a descriptor, copy_file_range, a buffered flush)."""
     import onnx_ir._core as core
 
     root = tempfile.mkdtemp(prefix="c08-", dir=_BASE[0])
@@ -882,7 +1189,15 @@ def run_real(case: dict, fault=None, mode="exn") -> dict:
         core._EXTERNAL_TENSOR_COPY_CHUNK_SIZE = case.get("chunk", old_chunk)
         shim = Shim(fault, mode)
         rd = _rdest(case)
-        shim.expect = {"dir": os.path.normpath(os.path.join(root, os.path.dirname(rd))), "base": os.path.basename(rd), "fd": case.get("file") == "fd", "pathfaults": bool(case.get("pathfaults")), "root": root, "det": case.get("det")}
+        shim.expect = {"dir": os.path.normpath(os.path.join(root, os.path.dirname(rd))), "base": os.path.basename(rd), "fd": case.get("file") == "fd", "pathfaults": bool(case.get("pathfaults")), "root": root, "det": case.get("det"), "det_policy": case.get("det_policy")}
+        conc = _is_conc(case)
+        if conc:
+            shim.expect["conc"] = True
+            shim.expect["tensor_shard"] = {case["tensors"][i]["name"]: k for k, (_n, idx) in enumerate(case["jobs"]) for i in idx}
+            for k, (n, _idx) in enumerate(case["jobs"]):
+                rn = resolve(case, n)
+                d = os.path.normpath(os.path.join(root, os.path.dirname(rn)))
+                shim.shards[k] = {"name": n, "base": os.path.basename(rn), "dir": d, "dest": os.path.join(d, os.path.basename(rn)), "tmpdir": None}
         if mode in ("crash", "exn-crash"):
             sys.stdout.flush()
             sys.stderr.flush()
@@ -892,10 +1207,12 @@ def run_real(case: dict, fault=None, mode="exn") -> dict:
                 try:
                     _SHIM[0] = shim
                     install(shim)
-                    if case["api"] == "sharded":
+                    if case["api"] == "sharded" and not conc:
                         _sharded_expect(shim, case)
                     try:
                         _invoke(case, root, objs)
+                    except DetHang:
+                        rc = 5
                     except BaseException:
                         rc = 3
                 finally:
@@ -907,12 +1224,25 @@ def run_real(case: dict, fault=None, mode="exn") -> dict:
         raised = None
         _SHIM[0] = shim
         install(shim)
-        if case["api"] == "sharded":
+        if case["api"] == "sharded" and not conc:
             _sharded_expect(shim, case)
+        hang = None
+        old_lim = None
+        if fsize is not None:
+            import resource
+
+            old_lim = resource.getrlimit(resource.RLIMIT_FSIZE)
+            resource.setrlimit(resource.RLIMIT_FSIZE, (fsize, old_lim[1]))
         try:
-            _invoke(case, root, objs)
+            try:
+                _invoke(case, root, objs)
+            finally:
+                if old_lim is not None:
+                    resource.setrlimit(resource.RLIMIT_FSIZE, old_lim)
         except Injected:
             raised = "Injected"
+        except DetHang as e:
+            raised, hang = "DetHang", str(e)
         except BaseException as e:  # injected BaseException / FileNotFoundError, or a natural failure
             raised = type(e).__name__
         finally:
@@ -925,6 +1255,8 @@ def run_real(case: dict, fault=None, mode="exn") -> dict:
         obs["dest_seen"] = [os.path.relpath(d, root) if os.path.isabs(d) else d for d in shim.dest_seen]
         obs["tmp_parent_seen"] = [os.path.relpath(d, os.path.realpath(root)) for d in shim.tmp_parent_seen]
         obs["shard_order"] = list(shim.shard_order)
+        obs["who"] = list(shim.who)
+        obs["hang"] = hang
         obs["pre_os"] = pre_os
         for _, o, _ in exts:
             o.release()
@@ -934,6 +1266,11 @@ def run_real(case: dict, fault=None, mode="exn") -> dict:
         uninstall()
         core._EXTERNAL_TENSOR_COPY_CHUNK_SIZE = old_chunk
         shutil.rmtree(root, ignore_errors=True)
+
+
+def _is_conc(case: dict) -> bool:
+    """Concurrent shard drivers under the deterministic scheduler: effects are attributed to shards, model `saveShardedConc`."""
+    return case["api"] == "sharded" and bool(case.get("workers")) and case.get("det") is not None and len(case.get("jobs", [])) >= 2
 
 
 def _sharded_expect(shim: Shim, case: dict) -> None:
@@ -1129,6 +1466,23 @@ def model_request_shardedL(case: dict, faults: list) -> dict:
         for d, idx in case["jobs"]
     ]
     return req
+
+
+def model_request_conc(case: dict, sched) -> dict:
+    """`saveShardedConc`: the jobs in shard order, the schedule as picks [shard, p | null] (or "seq")."""
+    r = model_request(case, [])
+    r["m"] = "asave.conc"
+    r.pop("kind", None)
+    r["sched"] = sched
+    return r
+
+
+def sched_of(trace: list, who: list, pm: dict, upto=None) -> list:
+    """The schedule a real run followed: one pick per effect (the shard that performed it; failed -> bytes written)."""
+    out = []
+    for i, ev in enumerate(trace if upto is None else trace[:upto]):
+        out.append([who[i] if who[i] is not None else 10**6, (pm.get(i, 0) if ev[-1] else None)])
+    return out
 
 
 def marked_of(obs_or_trace, payload, fault_at=None) -> list:
@@ -1367,6 +1721,13 @@ def _oracle_sharded(part, case, obs, fault, mode, where, tag):
     if not clash and mode not in ("crash", "exn-crash") and obs["raised"] is None and not all(state):
         part.fail(f"{where}:shard-missing", "the sharded save returned normally but a shard file is missing", {**tag, "present": state})
     if mode not in ("crash", "exn-crash"):
+        cleanup_failed = any(ev[0].rstrip("!") in ("remove", "rmdir") and ev[-1] for ev in obs["trace"])
+        if obs["tmp"] and not cleanup_failed:
+            # after the sharded save returned or raised no temporary directory of any shard remains — also of the
+            # shards that were running or queued when another one failed
+            part.fail(f"{where}:temp-left-sharded", "the sharded save has ended (no clean-up call failed) but a temporary file or directory of a shard remains", {**tag, "left": obs["tmp"]})
+        if obs["raised"] is not None and not clash and not any(ev[-1] for ev in obs["trace"]):
+            part.fail(f"{where}:raised-without-failure", "the sharded save raised although no effect failed", {**tag, "raised": obs["raised"]})
         if clash and (obs["trace"] or obs["raised"] is None):
             part.fail(f"{where}:preflight", "a shard destination existed but the sharded save performed effects or did not raise", tag)
         for v in obs["valid"]:
@@ -1439,6 +1800,16 @@ def check_case(part, case: dict, crash: bool = True, only=None) -> None:
         runs.append((f, "exn", run_real(case, f, "exn")))
         if crash and j == 0:
             runs.append((f, "exn-crash", run_real(case, f, "exn-crash")))
+    if case.get("file") == "fd" and only is None and case["api"] == "convert":
+        # fd fast paths (numpy tofile / copy_file_range write through the descriptor, invisible to the counting file
+        # object): faults *inside* them are produced by the kernel — the temporary file may not grow beyond L bytes
+        # (short write, then EFBIG) for L at the start, in the middle and one byte before the end of the new file
+        total = len(expected_image(case))
+        for L in sorted({0, 1, total // 2, max(total - 1, 0)}):
+            if L < total:
+                o = run_real(case, None, "exn", fsize=L)
+                part.count("fd_fsize_raised:" + str(o["raised"] is not None))
+                runs.append((None, "fsize", o))
     linkL = use_model and uses_links_model(case)
     par = bool(case.get("workers"))  # schedule dependent: the model gets the writer effects each run observed
     det = case.get("det") is not None  # deterministic executor: the schedule is a function of the seed
@@ -1465,7 +1836,25 @@ def check_case(part, case: dict, crash: bool = True, only=None) -> None:
             # the observed schedule of the real parallel writer is a word of the model's trace language (`parValid`)
             pre_reqs["parvalid"] = {"m": "asave.parvalid", "tensors": tj, "cb": case["cb"], "maxWorkers": case["workers"], "writer": writer_of(base_obs)}
 
+    if shAll:
+        # tie between the concurrent model and the sequential one: under the sequential schedule `saveShardedConc`
+        # performs the effects of `saveShardedAll` and ends with the same directory
+        pre_reqs["concseq"] = model_request_conc(case, "seq")
+        r0 = model_request(case, [])
+        r0["kind"] = "shardedAll"
+        pre_reqs["seqall"] = r0
+
     def after_pre(ans: dict) -> None:
+        if "concseq" in ans and "seqall" in ans:
+            a, b = ans["concseq"], ans["seqall"]
+            if "err" in a or "err" in b:
+                part.disagree("model error " + str(a.get("err") or b.get("err")), tag0)
+            else:
+                part.count("conc_seq_tie")
+                if [x[1:] for x in a["trace"]] != [list(x) for x in b["trace"]] or a["final"]["files"] != b["final"]["files"] or a["raised"] != b["raised"]:
+                    part.disagree("saveShardedConc under the sequential schedule != saveShardedAll", tag0, a["trace"], b["trace"])
+                if not a["refused"] and [x is not None for x in a["newBytes"]] != [True] * len(a["newBytes"]):
+                    part.disagree("model: a shard's writer produces no file", tag0, a["newBytes"], None)
         if "resolve" in ans:
             md, seen = ans["resolve"].get("r"), base_obs["dest_seen"][0]
             if md != seen:
@@ -1519,15 +1908,23 @@ def check_case(part, case: dict, crash: bool = True, only=None) -> None:
         if shL:
             return model_request_shardedL(case, fl)
         if shAll:
-            order = obs.get("shard_order") if mode in ("exn", "base") else base_obs.get("shard_order")
-            if not order or sorted(order) != sorted(j[0] for j in case["jobs"]):
-                order = [j[0] for j in case["jobs"]] if not base_obs.get("shard_order") else base_obs["shard_order"]
-            r = model_request(case, fl)
-            byname = {j[0]: j for j in r["jobs"]}
-            names = {j[0]: resolve(case, j[0]) for j in case["jobs"]}
-            r["kind"] = "shardedAll"
-            r["jobs"] = [byname[names[n]] for n in order if names.get(n) in byname]
-            return r
+            # concurrent shard drivers, interleaved effect by effect: the model follows the schedule the run followed
+            if mode in ("exn", "base"):
+                return model_request_conc(case, sched_of(obs["trace"], obs["who"], pmap_of(f)))
+            if mode == "crash":
+                k0, p0 = fl[0]
+                if k0 >= len(trace0):
+                    return None
+                return model_request_conc(case, sched_of(trace0, base_obs["who"], {}, upto=k0) + [[base_obs["who"][k0] if base_obs["who"][k0] is not None else 10**6, p0]])
+            # exn-crash: the process dies at the last fault of a sequence; the schedule up to there is the one of the
+            # exception run with the same faults
+            twin = next((o for (g, m2, o) in runs if m2 == "exn" and g == f), None)
+            if twin is None or max(k for k, _ in fl) >= len(twin["trace"]):
+                return None
+            kl = max(k for k, _ in fl)
+            pm = pmap_of(f)
+            sc = sched_of(twin["trace"], twin["who"], pm, upto=kl)
+            return model_request_conc(case, sc + [[twin["who"][kl] if twin["who"][kl] is not None else 10**6, pm[kl]]])
         if par and det and case["api"] != "sharded":
             if mode in ("exn", "base"):
                 pm = pmap_of(f)
@@ -1554,7 +1951,7 @@ def check_case(part, case: dict, crash: bool = True, only=None) -> None:
 
     jobs_idx, reqs = [], []
     for ri, (f, mode, obs) in enumerate(runs):
-        if not use_model or mode == "fnf":
+        if not use_model or mode in ("fnf", "fsize"):
             continue
         r = mk_req(f, mode, obs)
         if r is not None:
@@ -1579,7 +1976,7 @@ def check_case(part, case: dict, crash: bool = True, only=None) -> None:
             api=case["api"],
             mode=mode,
             compared_with_model=mo is not None,
-            model_kind=("none" if mo is None else "links" if linkL else "sharded-links" if shL else "sharded-all" if shAll else "marked" if (par and det) else "writer" if par else case["api"]),
+            model_kind=("none" if mo is None else "links" if linkL else "sharded-links" if shL else "sharded-conc" if shAll else "marked" if (par and det) else "writer" if par else case["api"]),
             variant=case.get("label", "plain"),
             dest_exists=_rdest(case) in case["pre"],
             link_chain=_chain_len(case),
@@ -1588,7 +1985,15 @@ def check_case(part, case: dict, crash: bool = True, only=None) -> None:
             shard_boundary=bool(boundaries & {k for k, _ in _as_list(f)}),
             n_effects=min(len(trace0), 40) // 5 * 5,
             shards_queued=(case["api"] == "sharded" and bool(case.get("workers")) and len(case.get("jobs", [])) > case["workers"]),
+            det_policy=case.get("det_policy", "-"),
+            conc_switches=(min(sum(1 for a, b in zip(obs["who"], obs["who"][1:]) if a != b), 12) // 4 * 4 if (shAll and obs.get("who")) else "-"),
         )
+        if obs.get("hang") or obs.get("rc") == 5:
+            # the deterministic scheduler found every thread blocked, or a thread never came back: the real code deadlocks
+            # or loops under this schedule
+            part.count("nontermination:det-scheduler")
+            part.fail(f"nontermination:det-scheduler:{case['api']}[{case.get('label', 'plain')}]", "the save did not terminate under the deterministic scheduler: " + str(obs.get("hang") or "in the crash run"), {"case": case, "fault": f, "mode": mode})
+            continue
         oracle(part, case, obs, f, mode)
         if det and par and mode in ("exn", "base") and f is not None:
             k0 = min(k for k, _ in _as_list(f))
@@ -1604,8 +2009,30 @@ def check_case(part, case: dict, crash: bool = True, only=None) -> None:
             part.disagree("the model cannot resolve the destination", tagr)
             continue
         cleanup_failed = any(ev[0].rstrip("!") in ("remove", "rmdir") and ev[-1] for ev in obs.get("trace", []))
+        if shAll:
+            # hypotheses of C08_sharded_concurrent_exception evaluated on the run (shares in the evidence)
+            if mode in ("exn", "base"):  # (a crash run has no "the driver returned")
+                part.count("hyp_conc_preflight_passed:" + str(not mo["refused"]))
+                part.count("hyp_conc_allDone:" + str(mo["allDone"]))
+                part.count("hyp_conc_cleanFaults:" + str(mo["cleanFaults"]))
+                part.count("hyp_conc_writerBodies:" + str(mo["writerBodies"]))
+            for stn in ("final", "crash", "crashLast"):
+                if mo.get(stn) is not None:
+                    mo[stn]["tmpdir"], mo[stn]["tmpfile"] = False, None
         if mode in ("exn", "base"):
             mtrace = [list(x) for x in mo["trace"]]
+            if shAll:
+                rtrace = [[w] + list(ev) for w, ev in zip(obs["who"], obs["trace"])]
+                if mtrace != rtrace:
+                    part.disagree("effect trace of the interleaved shard drivers: model != implementation", tagr, mtrace, rtrace)
+                mtrace = obs["trace"]
+                if mo["allDone"] is not True and not mo["refused"]:
+                    part.disagree("model: the shard drivers have not all finished although the real function returned", tagr, mo["final"].get("pcs"), None)
+                # what the theorem concludes, on the model's answer: raises iff an effect failed; nothing left when no clean-up failed
+                if mo["raised"] != (mo["refused"] or any(x[-1] for x in mo["trace"])):
+                    part.disagree("model: raised is not equivalent to 'some effect failed'", tagr, mo["raised"], None)
+                if mo["cleanFaults"] and any(a or b for a, b in mo["final"]["tmps"]):
+                    part.disagree("model: a temporary path remains although no clean-up effect failed", tagr, mo["final"]["tmps"], None)
             # real thread pool: after a worker's failure the other workers run on until the pool is shut down, the
             # `writer` model kind leaves the block at once: traces compared for fault-free runs only (the `marked`
             # kind of the deterministic executor replays the whole block and is compared always)
@@ -1622,9 +2049,9 @@ def check_case(part, case: dict, crash: bool = True, only=None) -> None:
                 "reads": obs["reads"],
             }
             mmem = ms.pop("mem")
-            if shAll and (cleanup_failed or len(_as_list(f)) > 1):
-                # the model has one temporary directory: a leftover of an earlier shard is reused by the next one
-                ms.pop("tmp"), real.pop("tmp")
+            if shAll:  # one temporary directory per shard driver
+                ms["tmp"] = sorted(["T", ["F"] if b else []] for a, b in mo["final"]["tmps"] if a)
+                real["tmp"] = sorted(real["tmp"])
             if ms != real:
                 part.disagree("post-state: model != implementation", tagr, ms, real)
             if linkL:
@@ -1650,10 +2077,9 @@ def check_case(part, case: dict, crash: bool = True, only=None) -> None:
             real = {"files": obs["files"], "tmp": _canon_real_tmp(obs, case)}
             if obs["rc"] != CRASH_RC:
                 part.disagree("crash run did not reach the fault point", {"case": case, "fault": f}, None, obs["rc"])
-            if shAll and len(_as_list(f)) > 1:
-                # several faults across concurrent shards: the model has one temporary directory (a leftover of an
-                # earlier shard is reused by the next one), the listing of leftovers is not compared
-                ms["tmp"], real["tmp"] = [], []
+            if shAll:
+                ms["tmp"] = sorted(["T", ["F"] if b else []] for a, b in st["tmps"] if a)
+                real["tmp"] = sorted(real["tmp"])
             if {"files": ms["files"], "tmp": ms["tmp"]} != real:
                 part.disagree("crash state: model != implementation", tagr, ms, real)
             if linkL:
@@ -2080,6 +2506,7 @@ def gen_parallel_det(rng) -> dict:
     process exit, several faults — compared with the model's `saveMarked` on the marked writer block."""
     case = gen_parallel(rng)
     case["det"] = rng.randrange(1 << 30)
+    case["det_policy"] = rng.choice(["rr", "rand", "rand"])  # which worker performs its next effect: round robin / seeded choice
     case["label"] = "parallel-det"
     return case
 
@@ -2094,6 +2521,7 @@ def gen_sharded_det(rng) -> dict:
     if len(case["jobs"]) >= 3 and rng.random() < 0.6:
         case["workers"] = 2  # more shards than drivers: some shard saves are still queued when another one fails
     case["det"] = rng.randrange(1 << 30)
+    case["det_policy"] = rng.choice(["rr", "rand", "rand"])
     case["model"] = len(case["jobs"]) >= 2
     case["label"] = "sharded-det"
     return case
@@ -2171,7 +2599,7 @@ def _merge_part(dst, src: dict) -> None:
     dst["failures"] += src["failures"][: max(0, 10 - len(dst["failures"]))]
 
 
-def _isolated(case: dict, crash: bool, only=None, timeout: int = 900, attempt: int = 0) -> dict:
+def _isolated(case: dict, crash: bool, only=None, timeout: int = 600, attempt: int = 0) -> dict:
     """Check one case in a forked child: real code that dies with SIGBUS/SIGSEGV (an mmap of a file that was
     truncated in place is read) must not take the harness down, it is an observation. Any other abnormal end
     of the child (OOM kill, a BaseException in the harness, ...) is an infrastructure problem: one retry, then
@@ -2220,7 +2648,12 @@ def _isolated(case: dict, crash: bool, only=None, timeout: int = 900, attempt: i
             raise Infra(json.loads(b"".join(chunks))["infra"])
         return out
     if code == -signal.SIGALRM:
-        raise Infra(f"case timed out after {timeout}s")
+        # the real code did not return (loop / deadlock outside the deterministic scheduler's reach): a failure of
+        # the real code on this input, never a hung check
+        out.case([case, "timeout"], api=case["api"], mode="timeout")
+        out.count("nontermination:case-timeout")
+        out.fail(f"nontermination:case:{case['api']}[{case.get('label', 'plain')}]", f"the saves of this case did not finish within {timeout}s (the child running them was killed)", {"case": case})
+        return out
     if code not in (-signal.SIGBUS, -signal.SIGSEGV):
         if attempt == 0:
             return _isolated(case, crash, only, timeout, attempt=1)
